@@ -430,6 +430,17 @@ class Body:
                 out.append(self.edge_condition(x))
         return out
 
+    def nearest_condition(self, b):
+        """the innermost branch decision dominating node b (or None)"""
+        dom = self.dominators().get(b) or set()
+        best = None
+        for x in dom:
+            if x in self.edge_info:
+                d = len(self.dominators().get(x) or ())
+                if best is None or d > best[0]:
+                    best = (d, x)
+        return self.edge_condition(best[1]) if best else None
+
     def dominating_calls(self, b):
         """call terms of blocks whose *return edge* dominates b"""
         dom = self.dominators().get(b) or set()
